@@ -70,21 +70,7 @@ theorem spec_mem_iff (f l s v : Int) : Spec.Range.mem f l s v = true ↔ v ∈ S
       · intro h; simp at h
       · rintro ⟨i, hi, _⟩; omega
 
-/-! ### the guard of the `_partial` theorems -/
-
-/-- the range's own arithmetic stays inside `i64`: `last - first` and its absolute value, `-step`, the element
-count, and the iterator never has to saturate onto `last` -/
-def Range.Safe (r : Range) : Prop :=
-  r.isEmpty = true ∨
-    (-I64_MAX ≤ r.last - r.first ∧ r.last - r.first ≤ I64_MAX ∧ I64_MIN < r.step ∧
-     (Spec.Range.count r.first r.last r.step : Int) ≤ I64_MAX ∧
-     (0 < r.step → r.last < I64_MAX ∨ (r.last - r.first) % r.step = 0) ∧
-     (r.step < 0 → I64_MIN < r.last ∨ (r.first - r.last) % (-r.step) = 0))
-
-instance (r : Range) : Decidable r.Safe := by unfold Range.Safe; infer_instance
-
-theorem ck_ok {x : Int} (h1 : I64_MIN ≤ x) (h2 : x ≤ I64_MAX) : ck x = .ok x := by
-  simp [ck, InI64, h1, h2]
+/-! ### the model against the Spec, for every range -/
 
 theorem isEmpty_false_iff (r : Range) :
     r.isEmpty = false ↔ (0 < r.step ∧ r.first ≤ r.last) ∨ (r.step < 0 ∧ r.last ≤ r.first) := by
@@ -106,58 +92,46 @@ theorem count_down {f l s : Int} (hs : s < 0) (hfl : l ≤ f) :
   have : ¬ 0 < s := by omega
   simp [hs, this]; omega
 
-/-- `len` under the guard is the Spec's count -/
-theorem len_safe (r : Range) (hs : r.Safe) : r.len = .ok (Spec.Range.count r.first r.last r.step) := by
-  unfold Range.len
-  cases he : r.isEmpty with
-  | true =>
-    simp only [if_true]
-    unfold Range.isEmpty at he
-    unfold Spec.Range.count
-    by_cases h1 : 0 < r.step
-    · simp [h1] at he; simp [h1, he]
-    · by_cases h2 : r.step < 0
-      · simp [h1, h2] at he; simp [h1, h2, he]
-      · simp [h1, h2]
-  | false =>
-    simp only [Bool.false_eq_true, if_false]
-    rcases hs with hs | ⟨hd1, hd2, hst, hc, -, -⟩
-    · rw [he] at hs; cases hs
-    rcases (isEmpty_false_iff r).mp he with ⟨hp, hfl⟩ | ⟨hn, hfl⟩
-    · -- ascending
-      have hq : 0 ≤ (r.last - r.first) / r.step := Int.ediv_nonneg (by omega) (by omega)
-      rw [count_up hp hfl, Int.toNat_of_nonneg (by omega)] at hc
-      rw [ck_ok (by unfold I64_MIN; unfold I64_MAX at hd1; omega) hd2]
-      simp only [absCk]
-      have e1 : ¬ r.last - r.first = I64_MIN := by unfold I64_MIN; omega
-      have e2 : ¬ r.step = I64_MIN := by omega
-      have e3 : ¬ r.last - r.first < 0 := by omega
-      have e4 : ¬ r.step < 0 := by omega
-      have e5 : ¬ r.step = 0 := by omega
-      simp only [e1, e2, e3, e4, e5, if_false]
-      rw [Int.tdiv_eq_ediv_of_nonneg (by omega), ck_ok (by unfold I64_MIN; omega) hc, count_up hp hfl]
-    · -- descending
-      have hq : 0 ≤ (r.first - r.last) / (-r.step) := Int.ediv_nonneg (by omega) (by omega)
-      rw [count_down hn hfl, Int.toNat_of_nonneg (by omega)] at hc
-      rw [ck_ok (by unfold I64_MIN; unfold I64_MAX at hd1; omega) hd2]
-      simp only [absCk]
-      have e1 : ¬ r.last - r.first = I64_MIN := by unfold I64_MIN; unfold I64_MAX at hd1; omega
-      have e2 : ¬ r.step = I64_MIN := by omega
-      have e4 : r.step < 0 := hn
-      have e5 : ¬ -r.step = 0 := by omega
-      simp only [e1, e2, e4, e5, if_false, if_true]
-      have e6 : (if r.last - r.first < 0 then -(r.last - r.first) else r.last - r.first) = r.first - r.last := by
-        split <;> omega
-      rw [e6, Int.tdiv_eq_ediv_of_nonneg (by omega), ck_ok (by unfold I64_MIN; omega) hc, count_down hn hfl]
-
 theorem beq_zero_eq_decide (x : Int) : (x == 0) = decide (x = 0) := by
   by_cases h : x = 0 <;> simp [h]
 
-/-- `contains` under the guard is the Spec's membership, for every `i64` value -/
-theorem contains_safe (r : Range) (hw : r.WF) (hs : r.Safe) (v : Int) (hv : InI64 v) :
-    r.contains v = .ok (Spec.Range.mem r.first r.last r.step v) := by
-  obtain ⟨⟨hf1, hf2⟩, ⟨hl1, hl2⟩, ⟨hs1, hs2⟩⟩ := hw
-  obtain ⟨hv1, hv2⟩ := hv
+theorem natCast_succ_mul (n : Nat) (s : Int) : ((n + 1 : Nat) : Int) * s = (n : Int) * s + s := by
+  rw [Int.natCast_add, Int.add_mul]; simp
+
+theorem count_empty {r : Range} (he : r.isEmpty = true) : Spec.Range.count r.first r.last r.step = 0 := by
+  unfold Range.isEmpty at he
+  unfold Spec.Range.count
+  by_cases h1 : 0 < r.step
+  · simp [h1] at he; simp [h1, he]
+  · by_cases h2 : r.step < 0
+    · simp [h1, h2] at he; simp [h1, h2, he]
+    · simp [h1, h2]
+
+/-- `len` is the Spec's count, saturated at `usize::MAX` -/
+theorem len_eq (r : Range) : r.len = min (Spec.Range.count r.first r.last r.step) 18446744073709551615 := by
+  unfold Range.len
+  cases he : r.isEmpty with
+  | true => simp [count_empty he]
+  | false =>
+    simp only [Bool.false_eq_true, if_false]
+    rcases (isEmpty_false_iff r).mp he with ⟨hp, hfl⟩ | ⟨hn, hfl⟩
+    · have hq : 0 ≤ (r.last - r.first) / r.step := Int.ediv_nonneg (by omega) (by omega)
+      have e1 : absDiff r.last r.first = r.last - r.first := by unfold absDiff; split <;> omega
+      have e2 : uabs r.step = r.step := by unfold uabs; split <;> omega
+      rw [count_up hp hfl, e1, e2]
+      unfold USIZE_MAX
+      generalize (r.last - r.first) / r.step = q at *
+      omega
+    · have hq : 0 ≤ (r.first - r.last) / (-r.step) := Int.ediv_nonneg (by omega) (by omega)
+      have e1 : absDiff r.last r.first = r.first - r.last := by unfold absDiff; split <;> omega
+      have e2 : uabs r.step = -r.step := by unfold uabs; split <;> omega
+      rw [count_down hn hfl, e1, e2]
+      unfold USIZE_MAX
+      generalize (r.first - r.last) / (-r.step) = q at *
+      omega
+
+/-- `contains` is the Spec's membership, for every value -/
+theorem contains_eq (r : Range) (v : Int) : r.contains v = Spec.Range.mem r.first r.last r.step v := by
   unfold Range.contains Spec.Range.mem
   cases he : r.isEmpty with
   | true =>
@@ -170,113 +144,95 @@ theorem contains_safe (r : Range) (hw : r.WF) (hs : r.Safe) (v : Int) (hv : InI6
       · simp [h1, h2]
   | false =>
     simp only [Bool.false_eq_true, if_false]
-    rcases hs with hs | ⟨hd1, hd2, hst, -, -, -⟩
-    · rw [he] at hs; cases hs
     rcases (isEmpty_false_iff r).mp he with ⟨hp, hfl⟩ | ⟨hn, hfl⟩
-    · simp only [gt_iff_lt, hp, if_true, ge_iff_le]
+    · have e2 : uabs r.step = r.step := by unfold uabs; split <;> omega
+      simp only [gt_iff_lt, hp, if_true, ge_iff_le, e2]
       by_cases hb : r.first ≤ v ∧ v ≤ r.last
-      · simp only [hb, and_self, if_true]
-        rw [ck_ok (by unfold I64_MIN; omega) (by omega)]
-        simp only [Int.tmod_eq_emod_of_nonneg (show 0 ≤ v - r.first by omega)]
-        simp [beq_zero_eq_decide]
-      · simp only [hb, if_false]
-        simp; intro h1 h2; exact absurd ⟨h1, h2⟩ hb
+      · have e1 : absDiff v r.first = v - r.first := by unfold absDiff; split <;> omega
+        simp [hb, e1, beq_zero_eq_decide]
+      · have : ¬ (r.first ≤ v ∧ v ≤ r.last ∧ (v - r.first) % r.step = 0) := fun h => hb ⟨h.1, h.2.1⟩
+        simp [hb, this]
     · have hp : ¬ 0 < r.step := by omega
-      simp only [gt_iff_lt, hp, hn, if_true, if_false, ge_iff_le]
+      have e2 : uabs r.step = -r.step := by unfold uabs; split <;> omega
+      simp only [gt_iff_lt, hp, hn, if_true, if_false, ge_iff_le, e2]
       by_cases hb : v ≤ r.first ∧ r.last ≤ v
-      · simp only [hb, and_self, if_true]
-        rw [ck_ok (by unfold I64_MIN; omega) (by unfold I64_MAX at *; omega)]
-        simp only []
-        rw [ck_ok (by unfold I64_MIN; unfold I64_MAX at hs2; omega) (by unfold I64_MAX; unfold I64_MIN at hst; omega)]
-        simp only [Int.tmod_eq_emod_of_nonneg (show 0 ≤ r.first - v by omega)]
-        simp [beq_zero_eq_decide]
-      · simp only [hb, if_false]
-        simp; intro h1 h2; exact absurd ⟨h2, h1⟩ hb
+      · have e1 : absDiff v r.first = r.first - v := by unfold absDiff; split <;> omega
+        have hb' : r.last ≤ v ∧ v ≤ r.first := ⟨hb.2, hb.1⟩
+        simp [hb, e1, beq_zero_eq_decide]
+      · simp [hb]
+        intro h1 h2; exact absurd ⟨h2, h1⟩ hb
 
-/-- `size_hint` of the fresh iterator under the guard is the Spec's count -/
-theorem sizeHint_safe (r : Range) (hw : r.WF) (hs : r.Safe) :
-    r.sizeHint r.iter = .ok (Spec.Range.count r.first r.last r.step) := by
-  obtain ⟨⟨hf1, hf2⟩, ⟨hl1, hl2⟩, ⟨hs1, hs2⟩⟩ := hw
+/-- `size_hint` of the fresh iterator: the exact count, or "more than `usize::MAX`" -/
+theorem sizeHint_eq (r : Range) :
+    r.sizeHint r.iter =
+      if Spec.Range.count r.first r.last r.step ≤ 18446744073709551615
+      then (Spec.Range.count r.first r.last r.step, some (Spec.Range.count r.first r.last r.step))
+      else (18446744073709551615, none) := by
   unfold Range.sizeHint Range.iter
   cases he : r.isEmpty with
-  | true =>
-    simp only [Bool.false_or, if_true]
-    unfold Range.isEmpty at he
-    unfold Spec.Range.count
-    by_cases h1 : 0 < r.step
-    · simp [h1] at he; simp [h1, he]
-    · by_cases h2 : r.step < 0
-      · simp [h1, h2] at he; simp [h1, h2, he]
-      · simp [h1, h2]
+  | true => simp [count_empty he]
   | false =>
     simp only [Bool.or_self, Bool.false_eq_true, if_false]
-    rcases hs with hs | ⟨hd1, hd2, hst, hc, -, -⟩
-    · rw [he] at hs; cases hs
     rcases (isEmpty_false_iff r).mp he with ⟨hp, hfl⟩ | ⟨hn, hfl⟩
     · have hq : 0 ≤ (r.last - r.first) / r.step := Int.ediv_nonneg (by omega) (by omega)
-      rw [count_up hp hfl, Int.toNat_of_nonneg (by omega)] at hc
-      have e1 : ¬ r.first > r.last := by omega
-      simp only [gt_iff_lt, hp, if_true, e1, if_false]
-      rw [ck_ok (by unfold I64_MIN; omega) hd2]
-      simp only []
-      rw [Int.tdiv_eq_ediv_of_nonneg (by omega), ck_ok (by unfold I64_MIN; omega) hc, count_up hp hfl]
+      have e0 : ¬ r.first > r.last := by omega
+      have e1 : absDiff r.last r.first = r.last - r.first := by unfold absDiff; split <;> omega
+      have e2 : uabs r.step = r.step := by unfold uabs; split <;> omega
+      simp only [gt_iff_lt, hp, if_true, e0, decide_false, Bool.false_eq_true, if_false, e1, e2]
+      rw [count_up hp hfl]
+      unfold USIZE_MAX
+      generalize (r.last - r.first) / r.step = q at *
+      by_cases hc : q + 1 ≤ 18446744073709551615
+      · have : (q + 1).toNat ≤ 18446744073709551615 := by omega
+        simp [hc, this]
+      · have : ¬ (q + 1).toNat ≤ 18446744073709551615 := by omega
+        simp [hc, this]
     · have hq : 0 ≤ (r.first - r.last) / (-r.step) := Int.ediv_nonneg (by omega) (by omega)
-      rw [count_down hn hfl, Int.toNat_of_nonneg (by omega)] at hc
       have hp : ¬ 0 < r.step := by omega
-      have e1 : ¬ r.first < r.last := by omega
-      simp only [gt_iff_lt, hp, if_false, e1]
-      rw [ck_ok (by unfold I64_MIN; omega) (by unfold I64_MAX at *; omega)]
-      simp only []
-      rw [ck_ok (by unfold I64_MIN; unfold I64_MAX at hs2; omega) (by unfold I64_MAX; unfold I64_MIN at hst; omega)]
-      have e5 : ¬ -r.step = 0 := by omega
-      simp only [e5, if_false]
-      rw [Int.tdiv_eq_ediv_of_nonneg (by omega), ck_ok (by unfold I64_MIN; omega) hc, count_down hn hfl]
+      have e0 : ¬ r.first < r.last := by omega
+      have e1 : absDiff r.last r.first = r.first - r.last := by unfold absDiff; split <;> omega
+      have e2 : uabs r.step = -r.step := by unfold uabs; split <;> omega
+      simp only [gt_iff_lt, hp, if_false, e0, decide_false, Bool.false_eq_true, e1, e2]
+      rw [count_down hn hfl]
+      unfold USIZE_MAX
+      generalize (r.first - r.last) / (-r.step) = q at *
+      by_cases hc : q + 1 ≤ 18446744073709551615
+      · have : (q + 1).toNat ≤ 18446744073709551615 := by omega
+        simp [hc, this]
+      · have : ¬ (q + 1).toNat ≤ 18446744073709551615 := by omega
+        simp [hc, this]
 
 /-! ### the iteration -/
 
-theorem natCast_succ_mul (n : Nat) (s : Int) : ((n + 1 : Nat) : Int) * s = (n : Int) * s + s := by
-  rw [Int.natCast_add, Int.add_mul]; simp
-
-/-- ascending iteration from `cur` with `n+1` elements left; the saturating add is harmless when the last
-element is hit exactly or `last` is not `i64::MAX` -/
+/-- ascending iteration from `cur` with `n+1` members left: `checked_add` ends it after the last member -/
 theorem collect_up (r : Range) (hp : 0 < r.step) (he : r.isEmpty = false) (hl : r.last ≤ I64_MAX) :
     ∀ (n : Nat) (cur : Int) (fuel : Nat), I64_MIN ≤ cur →
-      cur + (n : Int) * r.step ≤ r.last → r.last < cur + (n : Int) * r.step + r.step →
-      (r.last < I64_MAX ∨ r.last = cur + (n : Int) * r.step) → n + 2 ≤ fuel →
+      cur + (n : Int) * r.step ≤ r.last → r.last < cur + (n : Int) * r.step + r.step → n + 2 ≤ fuel →
       r.collect fuel ⟨cur, false⟩ = (List.range (n + 1)).map (fun i : Nat => cur + (i : Int) * r.step) := by
   intro n
   induction n with
   | zero =>
-    intro cur fuel hc h1 h2 hg hf
+    intro cur fuel hc h1 h2 hf
     obtain ⟨m, rfl⟩ : ∃ m, fuel = m + 2 := ⟨fuel - 2, by omega⟩
-    simp only [Int.natCast_zero, Int.zero_mul, Int.add_zero] at h1 h2 hg
+    simp only [Int.natCast_zero, Int.zero_mul, Int.add_zero] at h1 h2
     by_cases hcl : cur = r.last
+    · simp [Range.collect, Range.next, he, hp, hcl]
     · have e1 : ¬ cur > r.last := by omega
-      simp [Range.collect, Range.next, he, hp, e1, hcl]
-    · have e1 : ¬ cur > r.last := by omega
-      have e2 : satAdd cur r.step > r.last := by
-        unfold satAdd
-        split
-        · rcases hg with hg | hg <;> omega
-        · split
-          · unfold I64_MIN at *; omega
-          · omega
-      simp [Range.collect, Range.next, he, hp, e1, hcl, e2]
+      by_cases hin : InI64 (cur + r.step)
+      · have e2 : cur + r.step > r.last := by omega
+        simp [Range.collect, Range.next, Range.advance, he, hp, e1, hcl, hin, e2]
+      · simp [Range.collect, Range.next, Range.advance, he, hp, e1, hcl, hin]
   | succ n ih =>
-    intro cur fuel hc h1 h2 hg hf
+    intro cur fuel hc h1 h2 hf
     obtain ⟨m, rfl⟩ : ∃ m, fuel = m + 1 := ⟨fuel - 1, by omega⟩
-    rw [natCast_succ_mul] at h1 h2 hg
+    rw [natCast_succ_mul] at h1 h2
     have hn0 : 0 ≤ (n : Int) * r.step := Int.mul_nonneg (Int.natCast_nonneg n) (by omega)
     have e1 : ¬ cur > r.last := by omega
     have e2 : ¬ cur = r.last := by omega
-    have e3 : satAdd cur r.step = cur + r.step := by
-      unfold satAdd
-      have : ¬ cur + r.step > I64_MAX := by omega
-      have : ¬ cur + r.step < I64_MIN := by omega
-      simp [*]
-    have ih' := ih (cur + r.step) m (by omega) (by omega) (by omega) (by omega) (by omega)
+    have e3 : InI64 (cur + r.step) := ⟨by omega, by omega⟩
+    have ih' := ih (cur + r.step) m (by omega) (by omega) (by omega) (by omega)
     rw [List.range_succ_eq_map, List.map_cons, List.map_map]
-    simp only [Range.collect, Range.next, he, hp, e1, e2, e3, Bool.or_self, Bool.false_eq_true, if_false, if_true, gt_iff_lt]
+    simp only [Range.collect, Range.next, Range.advance, he, hp, e1, e2, e3, Bool.or_self, Bool.false_eq_true, if_false, if_true]
     rw [ih']
     simp only [Int.natCast_zero, Int.zero_mul, Int.add_zero, List.cons.injEq, true_and]
     apply List.map_congr_left
@@ -284,47 +240,38 @@ theorem collect_up (r : Range) (hp : 0 < r.step) (he : r.isEmpty = false) (hl : 
     simp only [Function.comp, Nat.succ_eq_add_one]
     rw [natCast_succ_mul]; omega
 
-/-- descending iteration, the mirror image of `collect_up` -/
+/-- descending iteration, the mirror image -/
 theorem collect_down (r : Range) (hn : r.step < 0) (he : r.isEmpty = false) (hl : I64_MIN ≤ r.last) :
     ∀ (n : Nat) (cur : Int) (fuel : Nat), cur ≤ I64_MAX →
-      r.last ≤ cur + (n : Int) * r.step → cur + (n : Int) * r.step + r.step < r.last →
-      (I64_MIN < r.last ∨ r.last = cur + (n : Int) * r.step) → n + 2 ≤ fuel →
+      r.last ≤ cur + (n : Int) * r.step → cur + (n : Int) * r.step + r.step < r.last → n + 2 ≤ fuel →
       r.collect fuel ⟨cur, false⟩ = (List.range (n + 1)).map (fun i : Nat => cur + (i : Int) * r.step) := by
   have hp : ¬ r.step > 0 := by omega
   intro n
   induction n with
   | zero =>
-    intro cur fuel hc h1 h2 hg hf
+    intro cur fuel hc h1 h2 hf
     obtain ⟨m, rfl⟩ : ∃ m, fuel = m + 2 := ⟨fuel - 2, by omega⟩
-    simp only [Int.natCast_zero, Int.zero_mul, Int.add_zero] at h1 h2 hg
+    simp only [Int.natCast_zero, Int.zero_mul, Int.add_zero] at h1 h2
     by_cases hcl : cur = r.last
     · simp [Range.collect, Range.next, he, hp, hcl]
     · have e1 : ¬ cur < r.last := by omega
-      have e2 : satAdd cur r.step < r.last := by
-        unfold satAdd
-        split
-        · unfold I64_MAX at *; omega
-        · split
-          · rcases hg with hg | hg <;> omega
-          · omega
-      simp [Range.collect, Range.next, he, hp, e1, hcl, e2]
+      by_cases hin : InI64 (cur + r.step)
+      · have e2 : cur + r.step < r.last := by omega
+        simp [Range.collect, Range.next, Range.advance, he, hp, e1, hcl, hin, e2]
+      · simp [Range.collect, Range.next, Range.advance, he, hp, e1, hcl, hin]
   | succ n ih =>
-    intro cur fuel hc h1 h2 hg hf
+    intro cur fuel hc h1 h2 hf
     obtain ⟨m, rfl⟩ : ∃ m, fuel = m + 1 := ⟨fuel - 1, by omega⟩
-    rw [natCast_succ_mul] at h1 h2 hg
+    rw [natCast_succ_mul] at h1 h2
     have hn0 : (n : Int) * r.step ≤ 0 := by
       have := Int.mul_nonneg (Int.natCast_nonneg n) (show 0 ≤ -r.step by omega)
       rw [Int.mul_neg] at this; omega
     have e1 : ¬ cur < r.last := by omega
     have e2 : ¬ cur = r.last := by omega
-    have e3 : satAdd cur r.step = cur + r.step := by
-      unfold satAdd
-      have : ¬ cur + r.step > I64_MAX := by omega
-      have : ¬ cur + r.step < I64_MIN := by omega
-      simp [*]
-    have ih' := ih (cur + r.step) m (by omega) (by omega) (by omega) (by omega) (by omega)
+    have e3 : InI64 (cur + r.step) := ⟨by omega, by omega⟩
+    have ih' := ih (cur + r.step) m (by omega) (by omega) (by omega) (by omega)
     rw [List.range_succ_eq_map, List.map_cons, List.map_map]
-    simp only [Range.collect, Range.next, he, hp, e1, e2, e3, Bool.or_self, Bool.false_eq_true, if_false, if_true]
+    simp only [Range.collect, Range.next, Range.advance, he, hp, e1, e2, e3, Bool.or_self, Bool.false_eq_true, if_false, if_true]
     rw [ih']
     simp only [Int.natCast_zero, Int.zero_mul, Int.add_zero, List.cons.injEq, true_and]
     apply List.map_congr_left
@@ -332,28 +279,18 @@ theorem collect_down (r : Range) (hn : r.step < 0) (he : r.isEmpty = false) (hl 
     simp only [Function.comp, Nat.succ_eq_add_one]
     rw [natCast_succ_mul]; omega
 
-/-- under the guard the iteration is the Spec's element list, whatever fuel (at least `r.fuel`) is given -/
-theorem collect_safe (r : Range) (hw : r.WF) (hs : r.Safe) (fuel : Nat) (hf : r.fuel ≤ fuel) :
+/-- for every `i64` range the iteration is the Spec's element list, whatever fuel (at least `r.fuel`) is given -/
+theorem collect_all (r : Range) (hw : r.WF) (fuel : Nat) (hf : r.fuel ≤ fuel) :
     r.collect fuel r.iter = Spec.Range.elems r.first r.last r.step := by
   obtain ⟨⟨hf1, hf2⟩, ⟨hl1, hl2⟩, ⟨hs1, hs2⟩⟩ := hw
   unfold Spec.Range.elems
   cases he : r.isEmpty with
   | true =>
-    have hc : Spec.Range.count r.first r.last r.step = 0 := by
-      unfold Range.isEmpty at he
-      unfold Spec.Range.count
-      by_cases h1 : 0 < r.step
-      · simp [h1] at he; simp [h1, he]
-      · by_cases h2 : r.step < 0
-        · simp [h1, h2] at he; simp [h1, h2, he]
-        · simp [h1, h2]
-    rw [hc]
+    rw [count_empty he]
     unfold Range.fuel at hf
     obtain ⟨m, rfl⟩ : ∃ m, fuel = m + 1 := ⟨fuel - 1, by omega⟩
     simp [Range.collect, Range.next, he]
   | false =>
-    rcases hs with hs | ⟨hd1, hd2, hst, hc, hgu, hgd⟩
-    · rw [he] at hs; cases hs
     unfold Range.fuel at hf
     unfold Range.iter
     rcases (isEmpty_false_iff r).mp he with ⟨hp, hfl⟩ | ⟨hn, hfl⟩
@@ -370,11 +307,6 @@ theorem collect_safe (r : Range) (hw : r.WF) (hs : r.Safe) (fuel : Nat) (hf : r.
       apply collect_up r hp he hl2 _ _ _ hf1
       · rw [hqn]; omega
       · rw [hqn]; omega
-      · rcases hgu hp with h | h
-        · exact Or.inl h
-        · right
-          have := Int.ediv_mul_add_emod (r.last - r.first) r.step
-          rw [hqn]; omega
       · omega
     · have hq : 0 ≤ (r.first - r.last) / (-r.step) := Int.ediv_nonneg (by omega) (by omega)
       have hlo : (r.first - r.last) / (-r.step) * (-r.step) ≤ r.first - r.last := Int.ediv_mul_le _ (by omega)
@@ -392,113 +324,35 @@ theorem collect_safe (r : Range) (hw : r.WF) (hs : r.Safe) (fuel : Nat) (hf : r.
       apply collect_down r hn he hl1 _ _ _ hf2
       · rw [hqn]; omega
       · rw [hqn]; omega
-      · rcases hgd hn with h | h
-        · exact Or.inl h
-        · right
-          have := Int.ediv_mul_add_emod (r.first - r.last) (-r.step)
-          rw [Int.mul_neg] at this
-          rw [hqn]; omega
       · omega
 
-/-! ### the iteration always ends, guard or no guard: more fuel than `mu` changes nothing -/
-
-/-- an upper bound on the number of `next` calls until `None` -/
-def mu (r : Range) (it : It) : Nat :=
-  if it.done || r.isEmpty then 1
-  else if r.step > 0 then (if it.cur > r.last then 1 else (r.last - it.cur).toNat + 2)
-  else (if it.cur < r.last then 1 else (it.cur - r.last).toNat + 2)
-
-theorem satAdd_bounds (a b : Int) : I64_MIN ≤ satAdd a b ∧ satAdd a b ≤ I64_MAX := by
-  unfold satAdd I64_MIN I64_MAX
-  split
-  · omega
-  · split <;> omega
-
-theorem collect_stable (r : Range) (hl : InI64 r.last) :
-    ∀ (n : Nat) (it : It) (f1 f2 : Nat), InI64 it.cur → mu r it ≤ n → n ≤ f1 → n ≤ f2 →
-      r.collect f1 it = r.collect f2 it := by
-  obtain ⟨hl1, hl2⟩ := hl
-  intro n
-  induction n with
-  | zero =>
-    intro it f1 f2 _ hm
-    unfold mu at hm
-    split at hm
-    · omega
-    · split at hm <;> split at hm <;> omega
-  | succ n ih =>
-    intro it f1 f2 hc hm h1 h2
-    obtain ⟨a, rfl⟩ : ∃ a, f1 = a + 1 := ⟨f1 - 1, by omega⟩
-    obtain ⟨b, rfl⟩ : ∃ b, f2 = b + 1 := ⟨f2 - 1, by omega⟩
-    obtain ⟨cur, done⟩ := it
-    obtain ⟨hc1, hc2⟩ := hc
-    simp only at hc1 hc2
-    unfold mu at hm
-    simp only [Range.collect, Range.next]
-    by_cases hde : (done || r.isEmpty) = true
-    · simp [hde]
-    · simp only [hde, Bool.false_eq_true, if_false] at hm ⊢
-      have hd : done = false := by cases done <;> simp_all
-      have he : r.isEmpty = false := by cases h : r.isEmpty <;> simp_all
-      subst hd
-      by_cases hp : r.step > 0
-      · simp only [hp, if_true] at hm ⊢
-        by_cases h3 : cur > r.last
-        · simp [h3]
-        · simp only [h3, if_false] at hm ⊢
-          by_cases h4 : cur = r.last
-          · simp only [h4, if_true]
-            congr 1
-            apply ih ⟨r.last, true⟩ a b ⟨hl1, hl2⟩ _ (by omega) (by omega)
-            simp [mu]; omega
-          · simp only [h4, if_false]
-            congr 1
-            have hb := satAdd_bounds cur r.step
-            apply ih ⟨satAdd cur r.step, false⟩ a b hb _ (by omega) (by omega)
-            have hgt : satAdd cur r.step > cur := by
-              unfold satAdd; split
-              · omega
-              · split
-                · unfold I64_MIN at *; omega
-                · omega
-            unfold mu
-            simp only [he, Bool.or_self, Bool.false_eq_true, if_false, hp, if_true]
-            split <;> omega
-      · have hn : r.step < 0 := by
-          rcases (isEmpty_false_iff r).mp he with ⟨h, _⟩ | ⟨h, _⟩ <;> omega
-        simp only [hp, if_false] at hm ⊢
-        by_cases h3 : cur < r.last
-        · simp [h3]
-        · simp only [h3, if_false] at hm ⊢
-          by_cases h4 : cur = r.last
-          · simp only [h4, if_true]
-            congr 1
-            apply ih ⟨r.last, true⟩ a b ⟨hl1, hl2⟩ _ (by omega) (by omega)
-            simp [mu]; omega
-          · simp only [h4, if_false]
-            congr 1
-            have hb := satAdd_bounds cur r.step
-            apply ih ⟨satAdd cur r.step, false⟩ a b hb _ (by omega) (by omega)
-            have hgt : satAdd cur r.step < cur := by
-              unfold satAdd; split
-              · unfold I64_MAX at *; omega
-              · split <;> omega
-            unfold mu
-            simp only [he, Bool.or_self, Bool.false_eq_true, if_false, hp]
-            split <;> omega
-
-theorem mu_iter_le_fuel (r : Range) : mu r r.iter ≤ r.fuel := by
-  unfold mu Range.iter Range.fuel
-  simp only [Bool.false_or]
+/-- the count of an `i64` range exceeds `usize::MAX` only for `i64::MIN..=i64::MAX` with a unit step -/
+theorem count_le_usize (r : Range) (hw : r.WF)
+    (h : ¬ (r.first = I64_MIN ∧ r.last = I64_MAX ∧ r.step = 1) ∧ ¬ (r.first = I64_MAX ∧ r.last = I64_MIN ∧ r.step = -1)) :
+    Spec.Range.count r.first r.last r.step ≤ 18446744073709551615 := by
+  obtain ⟨⟨hf1, hf2⟩, ⟨hl1, hl2⟩, ⟨hs1, hs2⟩⟩ := hw
+  unfold I64_MIN I64_MAX at *
   cases he : r.isEmpty with
-  | true => simp
+  | true => rw [count_empty he]; omega
   | false =>
-    simp only [Bool.false_eq_true, if_false]
     rcases (isEmpty_false_iff r).mp he with ⟨hp, hfl⟩ | ⟨hn, hfl⟩
-    · have : ¬ r.first > r.last := by omega
-      simp only [gt_iff_lt, hp, if_true, this, if_false]; omega
-    · have h1 : ¬ r.step > 0 := by omega
-      have h2 : ¬ r.first < r.last := by omega
-      simp only [h1, h2, if_false]; omega
+    · rw [count_up hp hfl]
+      have hq : 0 ≤ (r.last - r.first) / r.step := Int.ediv_nonneg (by omega) (by omega)
+      have hle : (r.last - r.first) / r.step ≤ r.last - r.first := Int.ediv_le_self _ (by omega)
+      by_cases h1 : r.step = 1
+      · have : r.last - r.first < 18446744073709551615 := by omega
+        omega
+      · have : (r.last - r.first) / r.step < 9223372036854775808 :=
+          Int.ediv_lt_of_lt_mul hp (by omega)
+        omega
+    · rw [count_down hn hfl]
+      have hq : 0 ≤ (r.first - r.last) / (-r.step) := Int.ediv_nonneg (by omega) (by omega)
+      have hle : (r.first - r.last) / (-r.step) ≤ r.first - r.last := Int.ediv_le_self _ (by omega)
+      by_cases h1 : r.step = -1
+      · have : r.first - r.last < 18446744073709551615 := by omega
+        omega
+      · have : (r.first - r.last) / (-r.step) < 9223372036854775808 :=
+          Int.ediv_lt_of_lt_mul (by omega) (by omega)
+        omega
 
 end Edp.Ex
